@@ -75,6 +75,9 @@ class Chooser:
     def restart(self):
         self.pos = 0
 
+    def prefix(self):
+        return tuple(t[1] for t in self.trail[:self.pos])
+
     def describe(self):
         return ["%s=%s" % (t[2], t[3][t[1]]) for t in self.trail[:self.pos] if t[2]]
 
@@ -197,6 +200,8 @@ class Interp:
             return ("int", c)
         if k == "int":
             return ("int", e.get("v", 0))
+        if k == "str":
+            return ("str", e.get("v"))
         if k == "ref":
             if e["decl"] == "enumconst":
                 return ("int", c)
@@ -211,6 +216,17 @@ class Interp:
             op = e["op"]
             if op == "*":
                 return self.load(self.lval(e, fr), fr, e)
+            if op in ("pre++", "post++", "pre--", "post--"):
+                loc = self.lval(e["e"], fr)
+                old = self.load(loc, fr, e)
+                if old == ("anyint",):
+                    new = old
+                elif old[0] == "int":
+                    new = ("int", old[1] + (1 if "++" in op else -1))
+                else:
+                    raise AnalysisBroken("shape: line %d: %s on %r" % (line(e), op, old))
+                self.store(loc, new, fr, e)
+                return old if op.startswith("post") else new
             v = self.ev(e["e"], fr)
             if op == "!":
                 return ("int", int(not self.truth(v)))
@@ -234,12 +250,20 @@ class Interp:
                 return ("int", int(self.truth(self.ev(e["r"], fr))))
             l = self.ev(e["l"], fr)
             r = self.ev(e["r"], fr)
+            if op == ",":
+                return r
             if op in ("==", "!="):
                 if l[0] == "int" and r[0] == "int":
                     eq = l[1] == r[1]
+                elif hasattr(self.dom, "equal") and (l[0] not in ("null", "node", "int") or r[0] not in ("null", "node", "int")):
+                    eq = self.dom.equal(self, l, r, line(e))
                 else:
                     eq = self._ptr_eq(l, r)
                 return ("int", int(eq if op == "==" else not eq))
+            if l == ("anyint",) or r == ("anyint",):
+                if op in ("+", "-", "*", "&", "|", "^"):
+                    return ("anyint",)
+                raise AnalysisBroken("shape: line %d: comparison of a widened counter" % line(e))
             if l[0] != "int" or r[0] != "int":
                 raise AnalysisBroken("shape: line %d: %s on %r, %r" % (line(e), op, l, r))
             a, b = l[1], r[1]
@@ -282,6 +306,12 @@ class Interp:
             if name in self.unit.functions:
                 args = [self.ev(a, fr) for a in e["args"]]
                 return self.run_function(self.unit.functions[name], args)
+            if hasattr(self.dom, "call"):
+                args = [self.ev(a, fr) for a in e["args"]]
+                fp = self.ev(e["fnptr"], fr) if name is None and e.get("fnptr") is not None else None
+                r = self.dom.call(self, name, fp, args, line(e))
+                if r is not None:
+                    return r
             raise AnalysisBroken("shape: line %d: call to %s is not modelled" % (line(e), name or "a function pointer"))
         raise AnalysisBroken("shape: line %d: expression kind %s" % (line(e0), k))
 
@@ -349,7 +379,11 @@ class Interp:
                     if nxt is None:
                         raise AnalysisBroken("shape: %s: no %s successor of block %d" % (fn.name, want, bid))
                 if (bid, nxt) in back:
-                    raise PathEnd("backedge", None)
+                    if hasattr(self.dom, "at_loop_head"):
+                        if not self.dom.at_loop_head(self, fr, nxt):
+                            raise PathEnd("subsumed", None)
+                    else:
+                        raise PathEnd("backedge", None)
                 bid = nxt
         finally:
             self.depth -= 1
@@ -361,7 +395,7 @@ def explore(unit, fn, make_domain, max_paths=20000):
     read_root, write_root, at_return(interp), at_backedge(interp).
     Returns (stats, violations) where violations are (message, line, choices, lines)."""
     ch = Chooser()
-    stats = {"paths": 0, "infeasible": 0, "returns": 0, "backedges": 0}
+    stats = {"paths": 0, "infeasible": 0, "returns": 0, "backedges": 0, "subsumed": 0}
     viol = []
     while True:
         ch.restart()
@@ -376,8 +410,10 @@ def explore(unit, fn, make_domain, max_paths=20000):
         except PathEnd as pe:
             try:
                 if pe.kind == "return":
-                    dom.at_return(it)
+                    dom.at_return(it, pe.value) if getattr(dom, "wants_value", False) else dom.at_return(it)
                     stats["returns"] += 1
+                elif pe.kind == "subsumed":
+                    stats["subsumed"] += 1
                 else:
                     dom.at_backedge(it)
                     stats["backedges"] += 1
